@@ -258,3 +258,134 @@ def dfs_schedules(cfg, which, cap=None):
         vec = [v for _, v in ch[:i]] + [ch[i][1] + 1]
         if cap and n >= cap:
             return
+
+
+# ---------------------------------------------------------------------------
+# histories: several runs on one pool with restarts / kills / new workers in between (C09 bookkeeping part, C08 soundness per run)
+# ---------------------------------------------------------------------------
+
+@st.composite
+def history_config(draw):
+    nw = draw(st.integers(1, 3))
+    steps = []
+    nruns = 0
+    for _ in range(draw(st.integers(2, 6))):
+        kind = draw(st.sampled_from(['run', 'run', 'run', 'restart', 'kill', 'add']))
+        if kind == 'run':
+            n = draw(st.integers(0, 5))
+            steps.append(['run', [100 * (nruns + 1) + j for j in range(n)], draw(st.integers(0, 2)), draw(st.sampled_from([0, 0, 1, 2]))])
+            nruns += 1
+        elif kind == 'kill':
+            steps.append(['kill', draw(st.integers(0, 3))])
+        else:
+            steps.append([kind])
+    if nruns == 0:
+        steps.append(['run', [101, 102], 0, 1])
+    return {'workers': nw, 'history': steps, 'kill_marker': draw(st.booleans()), 'retry': True, 'idsalt': draw(st.integers(0, 5)),
+            'tape': draw(_tape_strategy())}
+
+
+def run_history(case):
+    out = Out()
+    sim = poolsim.Sim(dict(case, kills=0, inputs=[], poison={}, refuse=[]))
+    known_dead = set()       # SimWorker incarnation ids the pool has been told about (died callback) in an earlier run
+    runs = []
+    try:
+        for step in case['history']:
+            what = step[0]
+            alive_now = [w for w in sim.workers if w.alive]
+            if what == 'run':
+                inputs, extra, kills = step[1], step[2], step[3]
+                if not alive_now:
+                    out.label('run_skipped_no_live_worker')
+                    continue
+                sim.kills_left = kills
+                ids_before = {w.index: w.id for w in sim.workers}
+                enq_before = {w.index: 0 for w in sim.workers}
+                for w in sim.workers:
+                    w.enqueues_this_run = 0
+                pre_dead_known = set(known_dead)
+                trace_start = len(sim.trace)
+                res = sim.run(inputs, extra=extra)
+                seg = sim.trace[trace_start:]
+                kind = res['kind']
+                runs.append(kind)
+                site = 'run#%d' % len(runs)
+                # enqueue attempts on workers whose death the pool already handled in an earlier run
+                for ev in seg:
+                    if ev[0] in ('enqueued', 'enqueue_raised'):
+                        w = sim.workers[ev[1]]
+                        if ids_before[w.index] in pre_dead_known:
+                            out.viol('work_handed_to_known_dead_worker', site, f'worker {w.index} died in an earlier run (the pool was told) and was still offered {ev[2]}')
+                            break
+                if kind == 'internal':
+                    out.viol('internal_error:' + res['exc'], res['where'], f"{site}: {res['exc']}: {res['msg']}")
+                elif kind in ('deadlock', 'livelock'):
+                    out.viol(kind, site, 'Pool.run does not terminate in a later run of the same pool')
+                elif kind == 'return':
+                    vals = res['value'] if res['value'] is not None else []
+                    cnt = _multiset_check(vals, inputs, out, site)
+                    missing = [x for x in inputs if cnt[x] == 0]
+                    if missing:
+                        out.viol('missing', site, f'run returned normally without results for {missing} (results {vals})')
+                    # every worker that was alive at entry and stayed alive gets work when there is enough of it
+                    if len(inputs) >= len(alive_now) and not any(e[0] == 'died' for e in seg):
+                        idle = [w.index for w in alive_now if w.enqueues_this_run == 0]
+                        if idle:
+                            out.viol('live_worker_got_no_work', site + (':after_restart' if 'restarted' in [e[0] for e in sim.trace[:trace_start]] else ''),
+                                     f'workers {idle} were alive for the whole run but received none of the {len(inputs)} inputs')
+                elif kind == 'poolerror':
+                    alive = [w.index for w in sim.workers if w.alive]
+                    if alive:
+                        out.viol('poolerror_with_live_worker', site + (':after_restart' if any(e[0] == 'restarted' for e in sim.trace[:trace_start]) else ''),
+                                 f'PoolError in {site} while workers {alive} are alive (no enqueue_fn involved)')
+                    _multiset_check(res['partial'] or [], inputs, out, site + ':partial')
+                for i in sim.died_cb:
+                    known_dead.add(sim.workers[i].id if not sim.workers[i].alive else None)
+                for w in sim.workers:
+                    if not w.alive and w.died_by in ('killed', 'poison') and any(e[0] == 'died' and e[1] == w.index for e in seg) and w.index in sim.died_cb:
+                        known_dead.add(w.id)
+            elif what == 'kill':
+                if alive_now:
+                    w = alive_now[step[1] % len(alive_now)]
+                    w._die(marker=case.get('kill_marker', False), why='killed')
+                    out.label('kill_between_runs')
+            elif what == 'restart':
+                n_before = len(sim.pool.workers)
+                try:
+                    sim.pool.restart_workers(timeout=0)
+                except Exception as e:
+                    out.viol('restart_workers_raised:' + type(e).__name__, 'restart', repr(e)[:200])
+                    break
+                out.label('restart_workers')
+                if len(sim.pool.workers) != n_before:
+                    out.viol('worker_count_changed_by_restart', 'restart', f'{n_before} -> {len(sim.pool.workers)}')
+                if len(set(sim.pool._get_all_workers_ids())) != n_before or any(not w.alive for w in sim.workers):
+                    out.viol('restart_left_dead_or_duplicate_worker', 'restart', f'ids {list(sim.pool._get_all_workers_ids())}, alive {[w.alive for w in sim.workers]}')
+            elif what == 'add':
+                i = len(sim.workers)
+                sim.pool.add_worker(lambda i=i, **kw: poolsim.SimWorker(sim, i, **kw), userid=i)
+                out.label('add_worker_between_runs')
+        if len([r for r in runs]) >= 2:
+            out.label('runs>=2')
+        out.nontrivial = len(runs) >= 2 or 'restart_workers' in out.labels or 'kill_between_runs' in out.labels
+        out.key = {'cfg': {k: v for k, v in case.items() if k != 'tape'}, 'trace': [list(map(str, e)) for e in sim.trace]}
+        out.obs = {'runs': runs, 'events': len(sim.trace), 'trace_head': [' '.join(map(str, e)) for e in sim.trace[:16]]}
+    finally:
+        sim.close()
+    return out
+
+
+def simplify_history(case):
+    h = case['history']
+    for i in range(len(h) - 1, -1, -1):
+        if len(h) > 1:
+            yield dict(case, history=h[:i] + h[i + 1:])
+    t = case.get('tape', [])
+    for i in range(len(t)):
+        yield dict(case, tape=t[:i] + t[i + 1:])
+    if case['workers'] > 1:
+        yield dict(case, workers=case['workers'] - 1)
+    for i, s_ in enumerate(h):
+        if s_[0] == 'run' and len(s_[1]) > 1:
+            yield dict(case, history=h[:i] + [['run', s_[1][:-1], s_[2], s_[3]]] + h[i + 1:])
